@@ -220,6 +220,8 @@ impl Debugger {
                 }
 
                 Status::Finish => {
+                    // Commands of this pause (`goto`, `reset`, `eval`) may have moved the PC
+                    let instr = SignificantInstr::try_from(state.mem(state.pc())).ok();
                     if instr == Some(SignificantInstr::Return) {
                         dprintln!(
                             Alternate,
